@@ -1,9 +1,126 @@
-import Okane.Drv.IOUtil
-/-! Driver commands for C18 (stub: replaced when the property's streams are built). -/
-namespace Okane.Drv.C18
+import Okane.Drv.C16
+import Okane.Model.ImportCamt
+/-!
+Driver for C18 (ISO Camt053 import).  Case line (built by gen/c18.py from the statement structure it rendered
+as XML, and from the regex matches computed for the case):
 
-def main (args : List String) : IO Unit := do
-  let _ := args
-  pure ()
+  `<id> cfg=(cfg account (operator?) o2n|n2o (rules RULE...)) stmts=(STMT...) caps=(...) fund=(FUND?)`
+
+  STMT = `(stmt (bals (bal OPBD|CLBD AMT C|D)...) (entries NTRY...))`;   AMT = `(neg mant scale ccy)`
+  NTRY = `(ntry AMT C|D DATE (DATE?) ((dom fam sub)?) (chgs CHG...) (dtls DTL...) info)`
+  CHG  = `(AMT C|D 0|1)`
+  DTL  = `(dtl (ref?) AMT C|D ((AMT ((src tgt neg mant scale)?))?) (chgs CHG...) (info (key value)...))`
+
+Output as in Drv/C16.lean.
+-/
+namespace Okane.Drv.C18
+open Okane Okane.Drv Okane.Drv.C16 Okane.Import Sexp
+
+def decAmt : Sexp → Option CamtAmount
+  | .list [n, m, s, c] => do
+    let v ← decDec3 n m s; let c ← c.str?
+    pure ⟨v, c⟩
+  | _ => none
+
+def decCd : Sexp → Option CdtDbt
+  | .atom "C" => some .credit
+  | .atom "D" => some .debit
+  | _ => none
+
+def decChg : Sexp → Option ChargeRecord
+  | .list [a, cd, incl] => do
+    let a ← decAmt a; let cd ← decCd cd; let incl ← decBool incl
+    pure ⟨a, cd, incl⟩
+  | _ => none
+
+def decChgs : Sexp → Option (List ChargeRecord)
+  | .list (.atom "chgs" :: cs) => cs.mapM decChg
+  | _ => none
+
+def decXchg : Sexp → Option CurrencyExchange
+  | .list [s, t, n, m, sc] => do
+    let s ← s.str?; let t ← t.str?; let r ← decDec3 n m sc
+    pure ⟨s, t, r⟩
+  | _ => none
+
+def decTxAmt : Sexp → Option TxAmount
+  | .list [a, x] => do
+    let a ← decAmt a; let x ← decOpt decXchg x
+    pure ⟨a, x⟩
+  | _ => none
+
+def decInfo : Sexp → Option PartyInfo
+  | .list (.atom "info" :: kvs) => do
+    let kvs ← kvs.mapM fun
+      | .list [k, v] => do
+        let k ← k.str?; let v ← v.str?
+        pure (k, v)
+      | _ => none
+    let g := fun (k : String) => (kvs.find? fun e => e.1 == k).map (·.2)
+    pure { creditorName := g "creditor_name", creditorAccountId := g "creditor_account_id",
+           ultimateCreditorName := g "ultimate_creditor_name", debtorName := g "debtor_name",
+           debtorAccountId := g "debtor_account_id", ultimateDebtorName := g "ultimate_debtor_name",
+           remittanceUnstructured := g "remittance_unstructured_info",
+           additionalTransactionInfo := g "additional_transaction_info" }
+  | _ => none
+
+def decDtl : Sexp → Option TxDetails
+  | .list [.atom "dtl", ref, a, cd, ta, chgs, info] => do
+    let ref ← decOpt Sexp.str? ref; let a ← decAmt a; let cd ← decCd cd
+    let ta ← decOpt decTxAmt ta; let chgs ← decChgs chgs; let info ← decInfo info
+    pure ⟨ref, a, cd, ta, chgs, info⟩
+  | _ => none
+
+def decDomain : Sexp → Option (String × String × String)
+  | .list [a, b, c] => do
+    let a ← a.str?; let b ← b.str?; let c ← c.str?
+    pure (a, b, c)
+  | _ => none
+
+def decEntry : Sexp → Option CamtEntry
+  | .list [.atom "ntry", a, cd, bd, vd, dom, chgs, .list (.atom "dtls" :: ds), info] => do
+    let a ← decAmt a; let cd ← decCd cd; let bd ← decDate bd; let vd ← decOpt decDate vd
+    let dom ← decOpt decDomain dom; let chgs ← decChgs chgs; let ds ← ds.mapM decDtl; let info ← info.str?
+    pure ⟨a, cd, bd, vd, dom, chgs, ds, info⟩
+  | _ => none
+
+def decBal : Sexp → Option CamtBalance
+  | .list [.atom "bal", code, a, cd] => do
+    let code ← match code with
+      | .atom "OPBD" => some BalanceCode.opening
+      | .atom "CLBD" => some BalanceCode.closing
+      | _ => none
+    let a ← decAmt a; let cd ← decCd cd
+    pure ⟨code, a, cd⟩
+  | _ => none
+
+def decStmt : Sexp → Option Statement
+  | .list [.atom "stmt", .list (.atom "bals" :: bs), .list (.atom "entries" :: es)] => do
+    let bs ← bs.mapM decBal; let es ← es.mapM decEntry
+    pure ⟨bs, es⟩
+  | _ => none
+
+def decCamtCfg : Sexp → Option CamtCfg
+  | .list [.atom "cfg", account, op, order, rules] => do
+    let account ← account.str?; let op ← decOpt Sexp.str? op
+    let order ← decOrder order; let rules ← decRules rules
+    pure ⟨account, op, order, rules⟩
+  | _ => none
+
+def step (line : String) : String :=
+  let (id, fs) := splitFields line
+  match field fs "cfg", field fs "stmts", field fs "caps", field fs "fund" with
+  | some cfg, some stmts, some caps, some fund =>
+    match (Sexp.parse cfg).bind decCamtCfg, (Sexp.parse stmts).bind (decList decStmt),
+          (Sexp.parse caps).bind decCaps, (Sexp.parse fund).bind decFund with
+    | some cfg, some stmts, some caps, some fund =>
+      report id cfg.account fund (camtImport (capsFn caps) cfg [] stmts) false
+    | none, _, _, _ => s!"{id} undecodable cfg"
+    | _, none, _, _ => s!"{id} undecodable stmts"
+    | _, _, none, _ => s!"{id} undecodable caps"
+    | _, _, _, none => s!"{id} undecodable fund"
+  | _, _, _, _ => s!"{id} bad-case"
+
+def main (_args : List String) : IO Unit := forEachLine step
 
 end Okane.Drv.C18
